@@ -10,7 +10,8 @@ let b01 = bool_of_string01
 
 let pp w h nc p sg lv cbw cbh mct ord : PipeModel.pparams =
   { PipeModel.pp_w = zi w; pp_h = zi h; pp_nc = zi nc; pp_prec = zi p; pp_signed = b01 sg;
-    pp_levels = zi lv; pp_cbw = zi cbw; pp_cbh = zi cbh; pp_mct = b01 mct; pp_order = zi ord }
+    pp_levels = zi lv; pp_cbw = zi cbw; pp_cbh = zi cbh; pp_mct = b01 mct; pp_order = zi ord;
+    pp_x0 = zi "0"; pp_y0 = zi "0"; pp_iw = zi w }
 
 let outcome (f : 'a -> string) (o : 'a Base.outcome) : string =
   match o with
@@ -70,6 +71,93 @@ let register (reg : string -> (string list -> string) -> unit) : unit =
   reg "pipe_planes" (fun a -> match a with
     | [w; h; nc; p; sg; lv; cbw; cbh; mct; ord; tile] ->
       outcome planes_str (PipeModel.pipe_dec_planes (pp w h nc p sg lv cbw cbh mct ord) (bytes_of_hex tile))
+    | _ -> "?");
+  (* ---- quality layers: <params> nl ... ; alloc = rows "1,4,7" joined by ";" per block and "|" per component ---- *)
+  let parse_rows (s : string) : coq_Z list list list =
+    L.map (fun cs -> L.map zlist_of_string (if cs = "" || cs = "_" then [] else String.split_on_char ';' cs))
+      (String.split_on_char '|' s) in
+  (* pipe_alloc <params> nl hextile -> ok:rows : cumulative passes per layer of every block, from the packet headers *)
+  reg "pipe_alloc" (fun a -> match a with
+    | [w; h; nc; p; sg; lv; cbw; cbh; mct; ord; nl; tile] ->
+      outcome (fun comps -> String.concat "|" (L.map (fun rows -> if rows = [] then "_" else String.concat ";" (L.map string_of_zlist rows)) comps))
+        (PipeModel.pipe_recover_alloc (pp w h nc p sg lv cbw cbh mct ord) (zi nl) (bytes_of_hex tile))
+    | _ -> "?");
+  (* pipe_encode_l <params> nl alloc hexpixels -> ok:hex(tile bytes) *)
+  reg "pipe_encode_l" (fun a -> match a with
+    | [w; h; nc; p; sg; lv; cbw; cbh; mct; ord; nl; al; pix] ->
+      outcome hex_of_bytes (let q = pp w h nc p sg lv cbw cbh mct ord in PipeModel.pipe_encode_tile_layers q (zi nl) (PipeModel.alloc_of_rows q (parse_rows al)) (bytes_of_hex pix))
+    | _ -> "?");
+  (* pipe_encode_cs_l <params> nl alloc hexpixels -> ok:hex(whole codestream) *)
+  reg "pipe_encode_cs_l" (fun a -> match a with
+    | [w; h; nc; p; sg; lv; cbw; cbh; mct; ord; nl; al; pix] ->
+      let q = pp w h nc p sg lv cbw cbh mct ord in
+      outcome hex_of_bytes (Base.obind (PipeModel.pipe_encode_tile_layers q (zi nl) (PipeModel.alloc_of_rows q (parse_rows al)) (bytes_of_hex pix))
+                              (fun t -> Base.Ok (PipeModel.pipe_codestream_layers q (zi nl) t)))
+    | _ -> "?");
+  (* pipe_decode_l <params> nl hextile -> ok:hex(pixel bytes) *)
+  reg "pipe_decode_l" (fun a -> match a with
+    | [w; h; nc; p; sg; lv; cbw; cbh; mct; ord; nl; tile] ->
+      outcome hex_of_bytes (PipeModel.pipe_decode_tile_layers (pp w h nc p sg lv cbw cbh mct ord) (zi nl) (bytes_of_hex tile))
+    | _ -> "?");
+  (* ---- tiles: <params> tw th ... ; tiles = hex strings joined by ";" ---- *)
+  let tiles_str (l : coq_Z list list) : string =
+    if l = [] then "-" else String.concat ";" (L.map hex_of_bytes l) in
+  let parse_tiles (s : string) : coq_Z list list =
+    if s = "-" then [] else L.map bytes_of_hex (String.split_on_char ';' s) in
+  (* pipe_encode_t <params> tw th hexpixels -> ok:hex;hex;.. (packet bytes of every tile) *)
+  reg "pipe_encode_t" (fun a -> match a with
+    | [w; h; nc; p; sg; lv; cbw; cbh; mct; ord; tw; th; pix] ->
+      outcome tiles_str (PipeModel.pipe_encode_tiles (pp w h nc p sg lv cbw cbh mct ord) (zi tw) (zi th) (bytes_of_hex pix))
+    | _ -> "?");
+  (* pipe_encode_cs_t <params> tw th hexpixels -> ok:hex(whole codestream) *)
+  reg "pipe_encode_cs_t" (fun a -> match a with
+    | [w; h; nc; p; sg; lv; cbw; cbh; mct; ord; tw; th; pix] ->
+      let q = pp w h nc p sg lv cbw cbh mct ord in
+      outcome hex_of_bytes (Base.obind (PipeModel.pipe_encode_tiles q (zi tw) (zi th) (bytes_of_hex pix))
+                              (fun ts -> Base.Ok (PipeModel.pipe_codestream_tiles q (zi tw) (zi th) ts)))
+    | _ -> "?");
+  (* pipe_decode_t <params> tw th tiles -> ok:hex(pixel bytes) *)
+  reg "pipe_decode_t" (fun a -> match a with
+    | [w; h; nc; p; sg; lv; cbw; cbh; mct; ord; tw; th; tiles] ->
+      outcome hex_of_bytes (PipeModel.pipe_decode_tiles (pp w h nc p sg lv cbw cbh mct ord) (zi tw) (zi th) (parse_tiles tiles))
+    | _ -> "?");
+  (* ---- tiles x layers: <params> nl tw th ... ; allocations of the tiles joined by "/" ---- *)
+  let tile_q q tw th i = PipeModel.tile_pp q (PipeModel.tile_rect q (zi tw) (zi th) (z_of_int i)) in
+  (* pipe_alloc_tl <params> nl tw th tiles -> ok:alloc/alloc/.. (rows of every tile, read off its packet headers) *)
+  reg "pipe_alloc_tl" (fun a -> match a with
+    | [w; h; nc; p; sg; lv; cbw; cbh; mct; ord; nl; tw; th; tiles] ->
+      let q = pp w h nc p sg lv cbw cbh mct ord in
+      let ts = parse_tiles tiles in
+      let one i t = match PipeModel.pipe_recover_alloc (tile_q q tw th i) (zi nl) t with
+        | Base.Ok comps -> Some (String.concat "|" (L.map (fun rows -> if rows = [] then "_" else String.concat ";" (L.map string_of_zlist rows)) comps))
+        | _ -> None in
+      let rs = L.mapi one ts in
+      if L.exists (fun r -> r = None) rs then "err"
+      else "ok:" ^ String.concat "/" (L.map (function Some s -> s | None -> "") rs)
+    | _ -> "?");
+  let talloc q tw th (al : string) =
+    let per = Array.of_list (L.map parse_rows (String.split_on_char '/' al)) in
+    fun (idx : coq_Z) ->
+      let i = iz idx in
+      if i < 0 || i >= Array.length per then (fun _ _ -> [])
+      else PipeModel.alloc_of_rows (tile_q q tw th i) per.(i) in
+  (* pipe_encode_tl <params> nl tw th allocs hexpixels -> ok:hex;hex;.. *)
+  reg "pipe_encode_tl" (fun a -> match a with
+    | [w; h; nc; p; sg; lv; cbw; cbh; mct; ord; nl; tw; th; al; pix] ->
+      let q = pp w h nc p sg lv cbw cbh mct ord in
+      outcome tiles_str (PipeModel.pipe_encode_tiles_layers q (zi nl) (talloc q tw th al) (zi tw) (zi th) (bytes_of_hex pix))
+    | _ -> "?");
+  (* pipe_encode_cs_tl <params> nl tw th allocs hexpixels -> ok:hex(whole codestream) *)
+  reg "pipe_encode_cs_tl" (fun a -> match a with
+    | [w; h; nc; p; sg; lv; cbw; cbh; mct; ord; nl; tw; th; al; pix] ->
+      let q = pp w h nc p sg lv cbw cbh mct ord in
+      outcome hex_of_bytes (Base.obind (PipeModel.pipe_encode_tiles_layers q (zi nl) (talloc q tw th al) (zi tw) (zi th) (bytes_of_hex pix))
+                              (fun ts -> Base.Ok (PipeModel.pipe_codestream_tiles_layers q (zi nl) (zi tw) (zi th) ts)))
+    | _ -> "?");
+  (* pipe_decode_tl <params> nl tw th tiles -> ok:hex(pixel bytes) *)
+  reg "pipe_decode_tl" (fun a -> match a with
+    | [w; h; nc; p; sg; lv; cbw; cbh; mct; ord; nl; tw; th; tiles] ->
+      outcome hex_of_bytes (PipeModel.pipe_decode_tiles_layers (pp w h nc p sg lv cbw cbh mct ord) (zi nl) (zi tw) (zi th) (parse_tiles tiles))
     | _ -> "?");
   ()
 
